@@ -40,6 +40,12 @@ def gen_config(rng, tier, i=0, **fix):
         # a digitiser wider than one byte (valid: RealQuantizer documents any num_bits) whose values leave -128..127
         cfg['dig_bits'] = int(common.pick(rng, [12, 16, 10]))
         cfg['dig_fwhm'] = float(common.pick(rng, [900.0, 300.0, 32.0]))
+    # voltages far from order one: a receiver whose units make everything tiny, or a large DC level under unit noise
+    vs = common.stratum(i, 106, 8)
+    if vs == 3:
+        cfg['vscale'] = 1e-10
+    elif vs == 5:
+        cfg['dc'] = 1e7
     cfg.update(fix)
     return cfg
 
@@ -63,16 +69,17 @@ def build(stg, cfg):
         ants = src.antennas
         if cfg['bg_noise_std'] > 0:
             for s in src.bg_streams:
-                s.add_noise(0.0, cfg['bg_noise_std'])
+                s.add_noise(0.0, cfg['bg_noise_std'] * cfg.get('vscale', 1.0))
     chan_bw = cfg['sample_rate'] / cfg['P'] * (1 if cfg['asc'] else -1)
     for a in ants:
         for s in a.streams:
-            s.add_noise(0.0, cfg['noise_std'])
+            vsc = cfg.get('vscale', 1.0)
+            s.add_noise(cfg.get('dc', 0.0), cfg['noise_std'] * vsc)
             if cfg.get('noise_std2', 0.0) > 0:
-                s.add_noise(0.1, cfg['noise_std2'])
+                s.add_noise(0.1 * vsc, cfg['noise_std2'] * vsc)
             for t in cfg['tones']:
                 f = cfg['fch1'] + t['chan'] * chan_bw
-                s.add_constant_signal(f_start=f, drift_rate=t['drift'], level=t['level'])
+                s.add_constant_signal(f_start=f, drift_rate=t['drift'], level=t['level'] * vsc)
     dig = v.RealQuantizer(target_fwhm=cfg['dig_fwhm'], num_bits=cfg['dig_bits'], stats_calc_period=cfg['period_dig'],
                           stats_calc_num_samples=cfg['N_dig'])
     fb = v.PolyphaseFilterbank(num_taps=cfg['M'], num_branches=cfg['P'], window_fn=cfg['window'])
